@@ -39,6 +39,7 @@ def run(ctx, repo):
     XL.construct_protocol(ctx, repo)
     ctx.call(R6B.r_composer_errors, repo)
     ctx.call(R6B.r_deep_iff_setstate, repo)
+    ctx.call(R6B.r_constructed_key_hashing, repo)
 
 
 if __name__ == '__main__':
